@@ -1147,6 +1147,28 @@ def spell_family(seed, n, maxlen=2, budget=9000, vals=None):
     return out
 
 
+def prefix_family(seed, maxlen=3):
+    """names of one level of which one is the beginning of another (`--out` / `--output`): a name is the whole
+    name, in whatever order the two are declared and written"""
+    out = []
+    pairs = [("--out", "--output"), ("--dry", "--dry-run"), ("--file", "--files"), ("--n", "--name")]
+    for i, (a, b) in enumerate(pairs):
+        for order in (0, 1):
+            for shape in range(3):
+                if shape == 0:
+                    x, y = ar("a0", "opt", "str", a), ar("a1", "opt", "str", b)
+                elif shape == 1:
+                    x, y = sw("a0", a), sw("a1", b)
+                else:
+                    x, y = sw("a0", a), ar("a1", "many", "str", b)
+                named = [x, y] if order == 0 else [y, x]
+                named = named + [sw("f1", "-v")] if (i + shape) % 2 else named
+                tail = postail(pos("p0", "opt")) if (i + order + shape) % 3 == 0 else NOTAIL
+                out.append(mkdef(f"px{seed}_{i}_{order}_{shape}", level(named, tail), maxlen=maxlen, extras=(),
+                                 spells=("sep", "eq"), words=("w",), eqvals=("1", "x")))
+    return out
+
+
 def group_family(seed, maxlen=4, budget=8000):
     """optional / repeated / plain groups of two items (a choice with a single branch): deterministic coverage"""
     out = []
@@ -1432,10 +1454,30 @@ def decorate_for_help(d, rnd, hostile=None):
     return d
 
 
+def samename_family(seed, n):
+    """different commands that carry the same name at the same depth under different parents (`acct user add`,
+    `acct group add`), or the same name at different depths: every one of them is a command level of its own"""
+    out = []
+    for i in range(n):
+        la = level([ar("ua", "opt", "str", "--login")], NOTAIL)
+        lb = level([sw("ub", "--purge")], NOTAIL)
+        lc = level([ar("ga", "opt", "int", "--gid")], postail(pos("gp", "opt")) if i % 2 else NOTAIL)
+        ld = level([sw("gb", "--force")], NOTAIL)
+        user = cmd("user", level([sw("us", "-u")] if i % 3 == 0 else [], cmdtail([cmd("add", la), cmd("del", lb)])))
+        group = cmd("group", level([], cmdtail([cmd("add", lc), cmd("remove" if i % 2 else "del", ld)], optional=bool(i % 2))))
+        cmds = [user, group]
+        if i % 3 == 1:
+            cmds.append(cmd("add", level([sw("ra", "--root-add")], NOTAIL)))    # ... and the same name one level up
+        out.append(mkdef(f"same{seed}_{i}", level([sw("t0", "-v")] if i % 2 else [], cmdtail(cmds)), maxlen=2,
+                         extras=("help",), spells=("sep",), words=("1",)))
+    return out
+
+
 def help_family(seed, n):
     rnd = random.Random(seed)
     fam = conv_family(seed, n // 3, max_named=4, maxlen=2, budget=10**9) + cmd_family(seed + 1, n // 3, depth=3, maxlen=2, budget=10**9) \
         + alt_family(seed + 2, n // 6, maxlen=2, budget=10**9) + adj_family(seed + 3, n - 2 * (n // 3) - n // 6, maxlen=2, budget=10**9)
+    fam += samename_family(seed + 4, max(2, n // 30))
     fam = [decorate_for_help(d, rnd) for d in fam]
     # the same visible name in two alternatives, differing in kind / metavariable (optional-value idiom)
     for i in range(max(2, n // 20)):
